@@ -170,6 +170,8 @@ pub struct NodeCtx {
     /// dead (continuously since) — harness-side, independent of the detector's own record
     pub dead_grace: u64,
     pub dead_since: BTreeMap<ChitchatId, u64>,
+    /// the cluster id as configured (not as the node reports it)
+    pub cluster_cfg: String,
     /// `None`: no receiver is kept between reads (every read goes through a fresh accessor call)
     pub watch_rx: Option<watch::Receiver<BTreeMap<ChitchatId, NodeState>>>,
     _seeds_tx: watch::Sender<HashSet<std::net::SocketAddr>>,
@@ -620,7 +622,7 @@ impl Exec {
         let get = |s: u64, id: &ChitchatId| before.iter().find(|e| e.0 == s && &e.1 == id).map(|e| e.2);
         let _g = self.rt.enter();
         let (Some(ca), Some(cb)) = (self.nodes.get(&a), self.nodes.get(&b)) else { return };
-        if ca.cc.cluster_id() != cb.cc.cluster_id() {
+        if ca.cluster_cfg != cb.cluster_cfg {
             return;
         }
         let sched_a: Vec<ChitchatId> = ca.cc.scheduled_for_deletion_nodes().cloned().collect();
@@ -1298,6 +1300,7 @@ impl Exec {
                 let slot = a.first()?.nat()?;
                 let id = r_id(a.get(1)?)?;
                 let cluster_id = a.get(2)?.string()?;
+                let cluster_cfg = cluster_id.clone();
                 let grace = a.get(3)?.nat()?;
                 let f = a.get(4)?.tagged("fd")?;
                 let fdc = FailureDetectorConfig {
@@ -1367,7 +1370,7 @@ impl Exec {
                 // initial key-values fired no listener (none was subscribed yet); the model reports
                 // them, so reconstruct them from the state for comparison.
                 let init_events: Vec<(ChitchatId, String, String)> = Vec::new();
-                let ctx = NodeCtx { calls: Arc::new(Mutex::new(Vec::new())), handles: BTreeMap::new(), active: BTreeMap::new(), refmap: RefMap::default(), grace, cc, id: id.clone(), events, callbacks, publishes: 0, fd_params: Some((f[0].nat()?, f[1].nat()?, f[4].nat()?)), max_interval: f[3].nat()?, pred: pred_spec.clone(), removed_hb: BTreeMap::new(), dead_grace: f[5].nat()?, dead_since: BTreeMap::new(),
+                let ctx = NodeCtx { calls: Arc::new(Mutex::new(Vec::new())), handles: BTreeMap::new(), active: BTreeMap::new(), refmap: RefMap::default(), grace, cc, id: id.clone(), events, callbacks, publishes: 0, fd_params: Some((f[0].nat()?, f[1].nat()?, f[4].nat()?)), max_interval: f[3].nat()?, pred: pred_spec.clone(), removed_hb: BTreeMap::new(), dead_grace: f[5].nat()?, dead_since: BTreeMap::new(), cluster_cfg,
                     hbtrack: BTreeMap::new(), streak: BTreeMap::new(), watch_rx: Some(watch_rx), _seeds_tx: seeds_tx };
                 self.nodes.insert(slot, ctx);
                 self.resync_ref(slot);
@@ -2259,6 +2262,14 @@ impl Exec {
                 if let Some(d) = self.delta_content_violation(slot, &pd, sched) {
                     self.monitor_hit("C07", "delta-content", &d);
                 }
+                // C07 (size): the serialized delta never exceeds the budget it was computed for
+                {
+                    use chitchat::Serializable;
+                    let actual = delta.serialize_to_vec().len();
+                    if actual > mtu {
+                        self.monitor_hit("C07", "delta-exceeds-budget", &format!("delta of {actual} bytes for a budget of {mtu}"));
+                    }
+                }
                 Some((l, plist("ok", [p_delta(&pd)]), Some(pd)))
             }
             Err(_) => Some((l, p_panic(&take_panic()), None)),
@@ -2368,6 +2379,8 @@ impl Exec {
             // op but not for the next op, and one byte short of the next op
             if *l > 9 {
                 mtus.push((acc + 9).max(100));
+            }
+            if *l > 1 {
                 mtus.push((acc + l - 1).max(100));
             }
             acc += l;
@@ -2483,7 +2496,7 @@ impl Exec {
         }
         // the heartbeats of the digest, as the specification sees them
         let own_cluster = match pm {
-            PMsg::Syn { cluster_id, .. } => self.nodes.get(&slot).map(|c| c.cc.cluster_id() == cluster_id).unwrap_or(false),
+            PMsg::Syn { cluster_id, .. } => self.nodes.get(&slot).map(|c| &c.cluster_cfg == cluster_id).unwrap_or(false),
             _ => true,
         };
         let digest_hbs: Vec<(ChitchatId, u64)> = match pm {
